@@ -309,8 +309,9 @@ UUID_RE = re.compile(r"[0-9A-F]{8}-[0-9A-F]{4}-[0-9A-F]{4}-[0-9A-F]{4}-[0-9A-F]{
 
 
 class PersistSystem:
-    def __init__(self, env):
+    def __init__(self, env, preset=False):
         self.env = env
+        self.preset = preset
 
     def argv(self, nick, opts, mode):
         a = ["stmt", nick, "--password", PASSWORD]
@@ -335,7 +336,11 @@ class PersistSystem:
     def replay(self, history):
         env = self.env
         env.remove_user()
-        env.write_fidb({N1: {"url": "http://fidb.example/ofx", "version": 102, "ofxhome": "1003", "org": "FIDBORG"}})
+        env.write_fidb({N1: {"url": "http://fidb.example/ofx", "version": 102, "ofxhome": "1003", "org": "FIDBORG", "pretty": True, "nonewfileuid": True}})
+        if self.preset:
+            # the user has overridden FI-database settings by hand - among them booleans set to false, which the
+            # command line (store_true options) can never express
+            env.write_user({N1: {"pretty": False, "nonewfileuid": False, "version": 203, "appid": "HAPP"}, N2: {"url": "http://hand.example/ofx", "unclosedelements": False}})
         env.home_ids = {"1003": {"url": "http://home.example/ofx", "org": "HOMEORG", "fid": "HOMEFID", "brokerid": "homebrk"}}
         fails = []
         default_uid = None
@@ -355,8 +360,8 @@ class PersistSystem:
             m = re.search(r"^\[DEFAULT\]\s*\n(?:.*\n)*?clientuid\s*=\s*(\S+)", after_text or "", re.M)
             uid_now = m.group(1) if m else None
             if last:
-                case = {"part": "persist", "history": [list(h) for h in history]}
-                sig = f"C18|persist|{setname}|{mode}"
+                case = {"part": "persist", "history": [list(h) for h in history], "preset": self.preset}
+                sig = f"C18|persist|{setname}|{mode}" + ("|hand-edited-file" if self.preset else "")
 
                 def fail(kind, detail):
                     fails.append((f"{sig}|{kind}", case, detail))
@@ -405,7 +410,10 @@ def persist_work(chunk):
     t = Tally()
     try:
         for (first, depth) in chunk:
-            sysm = PersistSystem(env)
+            preset = False
+            if first == "preset":
+                preset, first = True, None
+            sysm = PersistSystem(env, preset)
             events = [(n, s, m) for n in (N1, N2) for (s, _) in OPTSETS for m in ("write", "dryrun-write")] + [(N1, "none", "plain")]
             if first is None:
                 # depth 1: every event from the initial state
@@ -445,7 +453,7 @@ def run(ctx):
     pj = precedence_jobs(ctx.thorough)
     depth = 2 if ctx.quick else 3
     firsts = [(n, s, m) for n in (N1, N2) for (s, _) in OPTSETS for m in ("write",)]
-    jobs = [("persist", (None, 1))] + [("persist", (f, depth)) for f in firsts]
+    jobs = [("persist", (None, 1)), ("persist", ("preset", 1))] + [("persist", (f, depth)) for f in firsts]
     rot = ctx.seed % len(pj)
     pj = pj[rot:] + pj[:rot]
     jobs += [("precgroup", pj[i : i + 40]) for i in range(0, len(pj), 40)]
@@ -463,7 +471,7 @@ def run(ctx):
         "rule": "precedence: 23 options (12 string, 4 boolean, 6 account lists, version) x every subset of their sources (CLI, user file, FI db, OFX Home where applicable) with a distinct marker per "
         "source, + every pair of options x every pair of " + ("sources" if ctx.thorough else "different sources") + "; each run writes the two configuration files, re-imports the script module and compares "
         f"merge_config's mapping with the model (highest-ranking source present wins); persistence: BFS to depth {depth} over 57 events (2 nicknames x 14 option sets x write/dry-run write, + a plain run), "
-        "state = text of ofxget.cfg (generated UUIDs normalised; sub-trees below non-writing first events coincide with the initial state's and are explored once); after every writing run a fresh plain "
+        "from an empty user file and (depth 1) from a hand-edited one that overrides FI-database booleans with false; state = text of ofxget.cfg (generated UUIDs normalised; sub-trees below non-writing first events coincide with the initial state's and are explored once); after every writing run a fresh plain "
         "run must give the same effective value for every persistable option, the other nickname must be unaffected, the password must not be in the file, a dry run must leave the file byte-identical, "
         "the default CLIENTUID must be created once and never change",
         "depth_bound": depth,
@@ -485,7 +493,7 @@ def replay(ctx, case):
             for sig, (n, c, d) in sorted(t.fails.items()):
                 print(" ", sig, "|", d)
             return bool(t.fails)
-        key, fails = PersistSystem(env).replay(tuple(tuple(h) for h in case["history"]))
+        key, fails = PersistSystem(env, case.get("preset", False)).replay(tuple(tuple(h) for h in case["history"]))
         print(" ofxget.cfg:\n" + key)
         for sig, c, d in fails:
             print(" ", sig, "|", d)
